@@ -42,6 +42,14 @@ def templates(backend: str, s) -> List[str]:
         f"ds.Select(lambda e: {J}.Count() > 2 and {J}[2].pt() > 5.0)",
         f"ds.Select(lambda e: ({J}[0].pt() if {J}.Count() > 0 else 0.0) + ({K}[0].pt() if {K}.Count() > 0 else 0.0))",
         f"ds.Select(lambda e: {J}.Select(lambda j: j.trkPts()[0]))",
+        # a literal flag (a captured Python variable) AFTER a partial operation decides the test but not whether the operation runs
+        f"ds.Where(lambda e: {J}.First().pt() > 30.0 or True).Select(lambda e: {J}.Count())",
+        f"ds.Where(lambda e: {J}.First().pt() > 30.0 and False).Select(lambda e: {J}.Count())",
+        f"ds.Select(lambda e: {J}.Select(lambda j: 1 if (j.trkPts()[2] > 5.0 or True) else 0))",
+        f"ds.Select(lambda e: 1.0 if ({K}[1].pt() > 0.0 and False) else 2.0)",
+        f"ds.Select(lambda e: {J}.Where(lambda j: not (j.trkPts().First() > 1.0 and False)).Count())",
+        f"ds.Where(lambda e: True or {J}.First().pt() > 30.0).Select(lambda e: {J}.Count())",
+        f"ds.Where(lambda e: False and {J}.First().pt() > 30.0).Select(lambda e: {J}.Count())",
         # a collection whose declared container class is not a std:: one
         f"ds.Select(lambda e: {J}.Select(lambda j: j.ptList()[0]))",
         f"ds.Select(lambda e: {J}.Select(lambda j: j.ptList()[2] if j.ptList().Count() > 2 else -1.0))",
